@@ -17,6 +17,7 @@ pub mod c16;
 pub mod c17;
 pub mod c18;
 pub mod c19;
+pub mod c19api;
 pub mod c20;
 
 /// Print the reference model's and the real parser's view of one case (used by `replay`).
